@@ -46,13 +46,13 @@ PROPS = {
     },
     "C08": {
         "pkg": "handlers", "level": "exploration",
-        "quick": {"stages": [st("^TestMerge", 6000)]},
-        "thorough": {"stages": [st("^TestMerge", 60000, shards=12), st("^TestMerge", 5000, shards=4, race=True)]},
+        "quick": {"stages": [st("^TestMerge(C08C09|Regress)", 6000), st("^TestMergeFreeRunning", 1500)]},
+        "thorough": {"stages": [st("^TestMerge(C08C09|Regress)", 60000, shards=10), st("^TestMergeFreeRunning", 15000, shards=4), st("^TestMerge", 5000, shards=4, race=True)]},
     },
     "C09": {
         "pkg": "handlers", "level": "exploration",
-        "quick": {"stages": [st("^TestMerge", 6000)]},
-        "thorough": {"stages": [st("^TestMerge", 60000, shards=12), st("^TestMerge", 5000, shards=4, race=True)]},
+        "quick": {"stages": [st("^TestMerge(C08C09|Regress)", 6000), st("^TestMergeFreeRunning", 1500)]},
+        "thorough": {"stages": [st("^TestMerge(C08C09|Regress)", 60000, shards=10), st("^TestMergeFreeRunning", 15000, shards=4), st("^TestMerge", 5000, shards=4, race=True)]},
     },
     "C06": {
         "pkg": "sqlite", "level": "exploration",
